@@ -34,6 +34,8 @@ use self::{
 
 pub mod error;
 mod filters;
+#[cfg(feature = "trustfall_verif")]
+pub use filters::verif_hooks as verif_filters;
 mod outputs;
 mod tags;
 mod util;
